@@ -127,7 +127,48 @@ func (f *frame) staticCall(at ssa.Instruction, fn *ssa.Function, args []T, c *ss
 		return f.applyContract(at, ct, args, st)
 	}
 	_ = sig
+	// a concrete method that implements a contracted interface method of its own package (curve.Scalar/Point,
+	// round.Session, ...): the interface contract is what every caller may rely on, also for a static call
+	if ict, recvT := f.ifaceContractFor(fn); ict != nil && len(args) > 0 && args[0].Sort == "Int" {
+		e.assumed["interface contract used for the static call of "+relName(fn)+" (refinement not checked)"] = true
+		self := T{"(mk_iface " + fmt.Sprint(e.typeID(recvT)) + " " + args[0].S + ")", "Iface", ict.ParamTypes[0]}
+		return f.applyContract(at, ict, append([]T{self}, args[1:]...), st)
+	}
 	return f.inlineOrHavoc(at, fn, args, nil, c, st)
+}
+
+// ifaceContractFor finds the interface contract that a pointer-receiver method of a module type implements.
+func (f *frame) ifaceContractFor(fn *ssa.Function) (*Contract, types.Type) {
+	recv := fn.Signature.Recv()
+	if recv == nil || fn.Pkg == nil {
+		return nil, nil
+	}
+	if _, isPtr := recv.Type().(*types.Pointer); !isPtr {
+		return nil, nil
+	}
+	var keys []string
+	for k := range f.e.db.byIface {
+		if strings.HasSuffix(k, ")."+fn.Name()) {
+			keys = append(keys, k)
+		}
+	}
+	sort.Strings(keys)
+	for _, k := range keys {
+		ct := f.e.db.byIface[k]
+		if len(ct.ParamTypes) == 0 {
+			continue
+		}
+		named, ok := ct.ParamTypes[0].(*types.Named)
+		if !ok || named.Obj().Pkg() == nil || named.Obj().Pkg() != fn.Pkg.Pkg {
+			continue
+		}
+		it, ok := named.Underlying().(*types.Interface)
+		if !ok || !types.Implements(recv.Type(), it) {
+			continue
+		}
+		return ct, recv.Type()
+	}
+	return nil, nil
 }
 
 func (f *frame) inStack(fn *ssa.Function) bool {
